@@ -6,7 +6,7 @@
 #        tools/matrix_merge.py once all have finished.
 set -u
 SH=${1:-0}; NSH=${2:-1}
-MX=/tmp/mx$SH
+MX=/tmp/mx$SH; [ "${OWN:-0}" = "1" ] && MX=/tmp/mxown$SH
 rm -rf $MX; mkdir -p $MX/verif
 rsync -a --exclude target --exclude .git /repo/ $MX/repo/
 rsync -a --exclude target /verif/mc/ $MX/verif/mc/
@@ -28,7 +28,8 @@ for d in /verif/seeded/C*/; do
   n=$((n+1)); [ $((n % NSH)) -eq $SH ] || continue
   s=$(basename $d)
   # ONLY_NEW=1: skip changes that already have a row in matrix.json
-  if [ "${ONLY_NEW:-0}" = "1" ] && grep -q "\"$s\":" /verif/seeded/matrix.json 2>/dev/null; then continue; fi
+  REF=/verif/seeded/matrix.json; [ $OWN -eq 1 ] && REF=/verif/seeded/own.json
+  if [ "${ONLY_NEW:-0}" = "1" ] && grep -q "\"$s\":" $REF 2>/dev/null; then continue; fi
   cd $MX/repo && git checkout -q -- . && git apply $d/patch.diff || { echo "no apply $s"; continue; }
   (cd $MX/verif/mc && cargo build --release --offline -q 2>/dev/null) || { echo "build failed $s"; continue; }
   caught=""
